@@ -29,7 +29,7 @@ def gen_clock_case(rng):
 
 
 def run(tier):
-    res = run_prog_check("C15", PROPS, tier, ["c15"], n_quick=4000, n_thorough=60000, rule=RULE, focus=["park", "condvar", "barrier", "mutex", "rwlock", "sem", "atomic", "chan"], focus_n=(3000, 60000))
+    res = run_prog_check("C15", PROPS, tier, ["c15"], n_quick=4000, n_thorough=60000, rule=RULE, focus=["park", "condvar", "barrier", "mutex", "rwlock", "sem", "atomic", "chan"], focus_n=(3000, 60000), exhaustive=["condvar", "park", "barrier", "chan", "sem", "acq", "mutex", "rwlock", "atomic"], exh_n=(30, 300))
     if isinstance(res, int):
         return res
     ctx, cases, mo, io = res
